@@ -82,6 +82,9 @@ type Signed struct {
 	// NoCL: the request goes out with neither a Content-Length header nor a body (and no Transfer-Encoding):
 	// legal HTTP/1.1 for a request without a body, whatever the method
 	NoCL bool
+	// TE: the body goes out with "Transfer-Encoding: chunked" (HTTP/1.1 chunked transfer coding, two chunks)
+	// instead of a Content-Length
+	TE bool
 }
 
 // Mark labels a region of the wire body.
@@ -507,6 +510,32 @@ func (s *Signed) WireCL(cl int) ([]byte, int) {
 	if s.NoCL {
 		b.WriteString("\r\n")
 		return b.Bytes(), b.Len()
+	}
+	if s.TE {
+		// (headers written above may include a Content-Length: rebuild without it)
+		b.Reset()
+		fmt.Fprintf(&b, "%s %s HTTP/1.1\r\n", s.Method, s.Target)
+		for _, kv := range s.Headers {
+			if strings.EqualFold(kv.K, "Content-Length") || strings.EqualFold(kv.K, "Transfer-Encoding") {
+				continue
+			}
+			fmt.Fprintf(&b, "%s: %s\r\n", kv.K, kv.V)
+		}
+		b.WriteString("Transfer-Encoding: chunked\r\n\r\n")
+		off := b.Len()
+		body := s.Body
+		for len(body) > 0 {
+			n := len(body)/2 + 1
+			if n > len(body) {
+				n = len(body)
+			}
+			fmt.Fprintf(&b, "%x\r\n", n)
+			b.Write(body[:n])
+			b.WriteString("\r\n")
+			body = body[n:]
+		}
+		b.WriteString("0\r\n\r\n")
+		return b.Bytes(), off
 	}
 	if !hasCL && (cl > 0 || s.Method == "PUT" || s.Method == "POST" || s.Method == "PATCH") {
 		fmt.Fprintf(&b, "Content-Length: %d\r\n", cl)
